@@ -1265,6 +1265,112 @@ def directed_varfields():
     return out
 
 
+def directed_shadowing():
+    """C06: user identifiers equal to the names the built-in temporal rules use. The rules of Interval / Impulse mention `origin` and
+    `horizon`; a field of the object an atom belongs to, or a parameter of a sub-predicate, with one of these names must not capture the
+    reference. Facts and goals whose requested values are fine / violate the GLOBAL origin and horizon. Returns (program, text, expected)."""
+    out = []
+    R = lambda v: num(v, False)
+    H20 = ('expr', ('eq', var('horizon'), R(20)))
+
+    def robot(field, val, smart):
+        return {'name': 'Robot', 'kind': 'class', 'supers': ['StateVariable'] if smart else [], 'fields': [(field, 'real', None)],
+                'ctors': [{'params': [], 'supers': [], 'inits': [], 'body': [('expr', ('eq', var(field), R(val) if val >= 0 else ('neg', R(-val))))]}]}
+    cases = []
+    for smart in (True, False):
+        at = {'name': 'Robot:At', 'owner': 'Robot', 'params': [('x', 'real')], 'supers': [] if smart else ['Interval'], 'body': []}
+        pg = {'name': 'Robot:Ping', 'owner': 'Robot', 'params': [], 'supers': ['Impulse'], 'body': []}
+        for isfact in (True, False):
+            inst = [('new', 'Robot', 'r', [])]
+            # a field named horizon = 100 while the global horizon is 20
+            cases.append(([robot('horizon', 100, smart)], [at], inst + [('formula', isfact, 'h', ['r'], 'Robot:At', [('x', R(2)), ('start', R(50))]), H20], 'unsat'))
+            cases.append(([robot('horizon', 100, smart)], [at], inst + [('formula', isfact, 'h', ['r'], 'Robot:At', [('x', R(2)), ('start', R(5))]), H20], 'sat'))
+            cases.append(([robot('horizon', 5, smart)], [at], inst + [('formula', isfact, 'h', ['r'], 'Robot:At', [('x', R(2)), ('end', R(15))]), H20], 'sat'))
+            # a field named origin = 30: the global origin stays 0 .. horizon
+            cases.append(([robot('origin', 30, smart)], [at], inst + [('formula', isfact, 'h', ['r'], 'Robot:At', [('x', R(2)), ('start', R(5)), ('end', R(9))]), H20], 'sat'))
+            cases.append(([robot('origin', -30, smart)], [at], inst + [('formula', isfact, 'h', ['r'], 'Robot:At', [('x', R(2)), ('start', ('neg', R(5)))]), H20], 'unsat'))
+            if not smart:
+                cases.append(([robot('horizon', 100, smart)], [at, pg], inst + [('formula', isfact, 'h', ['r'], 'Robot:Ping', [('at', R(50))]), H20], 'unsat'))
+                cases.append(([robot('origin', 30, smart)], [at, pg], inst + [('formula', isfact, 'h', ['r'], 'Robot:Ping', [('at', R(5))]), H20], 'sat'))
+    # parameters of a (sub-)predicate named like the globals
+    mv_h = {'name': 'MoveH', 'owner': None, 'params': [('horizon', 'real')], 'supers': ['Interval'], 'body': []}
+    mv_o = {'name': 'MoveO', 'owner': None, 'params': [('origin', 'real')], 'supers': ['Interval'], 'body': []}
+    mid = {'name': 'Mid', 'owner': None, 'params': [], 'supers': ['Interval'], 'body': []}
+    mv_s = {'name': 'MoveS', 'owner': None, 'params': [('horizon', 'real'), ('origin', 'real')], 'supers': ['Mid'], 'body': [('expr', ('ge', var('horizon'), var('origin')))]}
+    tk = {'name': 'Tick', 'owner': None, 'params': [('horizon', 'real')], 'supers': ['Impulse'], 'body': []}
+    preds = [mv_h, mv_o, mid, mv_s, tk]
+    for isfact in (True, False):
+        cases.append(([], preds, [('formula', isfact, 'm', [], 'MoveH', [('horizon', R(100)), ('end', R(50))]), H20], 'unsat'))
+        cases.append(([], preds, [('formula', isfact, 'm', [], 'MoveH', [('horizon', R(5)), ('end', R(15))]), H20], 'sat'))
+        cases.append(([], preds, [('formula', isfact, 'm', [], 'MoveO', [('origin', R(30)), ('start', R(5))]), H20], 'sat'))
+        cases.append(([], preds, [('formula', isfact, 'm', [], 'MoveO', [('origin', ('neg', R(30))), ('start', ('neg', R(5)))]), H20], 'unsat'))
+        cases.append(([], preds, [('formula', isfact, 'm', [], 'MoveS', [('horizon', R(100)), ('origin', R(40)), ('start', R(10)), ('end', R(60))]), H20], 'unsat'))
+        cases.append(([], preds, [('formula', isfact, 'm', [], 'MoveS', [('horizon', R(100)), ('origin', R(40)), ('start', R(10)), ('end', R(15))]), H20], 'sat'))
+        cases.append(([], preds, [('formula', isfact, 'm', [], 'Tick', [('horizon', R(100)), ('at', R(50))]), H20], 'unsat'))
+        cases.append(([], preds, [('formula', isfact, 'm', [], 'Tick', [('horizon', R(1)), ('at', R(10))]), H20], 'sat'))
+    for classes, preds_, main, exp in cases:
+        prog = {'classes': classes, 'preds': preds_, 'main': main}
+        out.append((prog, A.pp_program(prog), exp))
+    return out
+
+
+def directed_smart_both():
+    """C06: FACTS on smart types whose predicate reaches both temporal rules (Agent: `Both() : Impulse, Interval`; StateVariable: a
+    predicate that is also an Impulse; ReusableResource: a predicate extending Use and Impulse), with values that violate one of them."""
+    out = []
+    R = lambda v: num(v, False)
+    ag = {'name': 'BAg', 'kind': 'class', 'supers': ['Agent'], 'fields': [], 'ctors': []}
+    both = {'name': 'BAg:Both', 'owner': 'BAg', 'params': [], 'supers': ['Impulse', 'Interval'], 'body': []}
+    both2 = {'name': 'BAg:Both2', 'owner': 'BAg', 'params': [], 'supers': ['Interval', 'Impulse'], 'body': []}
+    sv = {'name': 'BSV', 'kind': 'class', 'supers': ['StateVariable'], 'fields': [], 'ctors': []}
+    sa = {'name': 'BSV:A', 'owner': 'BSV', 'params': [], 'supers': ['Impulse'], 'body': []}
+    H20 = ('expr', ('eq', var('horizon'), R(20)))
+    for pred in ('BAg:Both', 'BAg:Both2'):
+        for args, extra, exp in (([('at', R(5)), ('start', R(9)), ('end', R(3))], [], 'unsat'),
+                                 ([('at', R(5)), ('start', R(3)), ('end', R(9))], [], 'sat'),
+                                 ([('at', R(50)), ('start', R(3)), ('end', R(9))], [H20], 'unsat'),
+                                 ([('start', R(3)), ('duration', ('neg', R(1)))], [], 'unsat'),
+                                 ([('at', R(4))], [], 'sat')):
+            prog = {'classes': [ag], 'preds': [both, both2], 'main': [('new', 'BAg', 'a', []), ('formula', True, 'f', ['a'], pred, args)] + extra}
+            out.append((prog, A.pp_program(prog), exp))
+    for args, extra, exp in (([('at', R(50))], [H20], 'unsat'), ([('at', R(5)), ('start', R(2)), ('end', R(4))], [H20], 'sat'),
+                             ([('at', ('neg', R(3)))], [], 'unsat'), ([('start', R(9)), ('end', R(3))], [], 'unsat')):
+        prog = {'classes': [sv], 'preds': [sa], 'main': [('new', 'BSV', 's', []), ('formula', True, 'f', ['s'], 'BSV:A', args)] + extra}
+        out.append((prog, A.pp_program(prog), exp))
+    return out
+
+
+def directed_forward():
+    """C17: a class declared BEFORE its base class (one and two levels of forward reference; smart and plain base classes): the
+    hierarchy is the same as with the other order - predicates of the early class are predicates of the smart type, instances are
+    registered with the late base class, inherited fields are constructed. All problems are valid and satisfiable."""
+    out = []
+    R = lambda v: num(v, False)
+    q = lambda owner: {'name': owner + ':Q', 'owner': owner, 'params': [], 'supers': [], 'body': []}
+    sub = {'name': 'FSub', 'kind': 'class', 'supers': ['FRobot'], 'fields': [], 'ctors': []}
+    robot = {'name': 'FRobot', 'kind': 'class', 'supers': ['StateVariable'], 'fields': [], 'ctors': []}
+    subsub = {'name': 'FSubSub', 'kind': 'class', 'supers': ['FSub'], 'fields': [], 'ctors': []}
+    # plain classes with fields
+    pb = {'name': 'FBase', 'kind': 'class', 'supers': [], 'fields': [('bw', 'real', R(3))], 'ctors': []}
+    pd = {'name': 'FDer', 'kind': 'class', 'supers': ['FBase'], 'fields': [('dw', 'real', R(4))], 'ctors': []}
+    pdd = {'name': 'FDerDer', 'kind': 'class', 'supers': ['FDer'], 'fields': [], 'ctors': []}
+    cases = [
+        ([sub, robot], [q('FSub')], [('new', 'FSub', 's', []), ('formula', True, 'f', ['s'], 'FSub:Q', [('start', R(1))])]),
+        ([sub, robot], [q('FSub')], [('new', 'FSub', 's', []), ('formula', False, 'g', ['s'], 'FSub:Q', []), ('expr', ('ge', var('g', 'duration'), R(2)))]),
+        ([subsub, sub, robot], [q('FSubSub')], [('new', 'FSubSub', 's', []), ('formula', True, 'f', ['s'], 'FSubSub:Q', [('start', R(1)), ('end', R(4))])]),
+        ([subsub, robot, sub], [q('FSubSub')], [('new', 'FSubSub', 's', []), ('formula', False, 'g', ['s'], 'FSubSub:Q', [])]),
+        ([sub, robot], [q('FSub')], [('new', 'FSub', 's', []), ('new', 'FRobot', 'r0', []), ('local', ('ref', 'FRobot'), 'x', None), ('expr', ('ne', var('x'), var('r0')))]),
+        ([pd, pb], [], [('new', 'FDer', 'd', []), ('expr', ('eq', ('add', [var('d', 'bw'), var('d', 'dw')]), R(7))), ('new', 'FBase', 'b0', []),
+                        ('local', ('ref', 'FBase'), 'x', None), ('expr', ('ne', var('x'), var('b0')))]),
+        ([pdd, pd, pb], [], [('new', 'FDerDer', 'd', []), ('expr', ('eq', var('d', 'bw'), R(3))), ('local', ('ref', 'FBase'), 'x', None), ('expr', ('eq', var('x'), var('d')))]),
+        ([pdd, pb, pd], [], [('new', 'FDerDer', 'd', []), ('new', 'FDer', 'e', []), ('local', ('ref', 'FDer'), 'x', None), ('expr', ('ne', var('x'), var('e'))), ('expr', ('eq', var('x', 'dw'), R(4)))]),
+    ]
+    for classes, preds, main in cases:
+        prog = {'classes': classes, 'preds': preds, 'main': main}
+        out.append((prog, A.pp_program(prog), 'sat'))
+    return out
+
+
 def directed_temporal():
     """Problems aimed at each conjunct of the temporal rules: on a correct planner they are unsolvable; if one of the
     constraints of Interval / Impulse is lost they become solvable with an ill-formed active atom (which the checker rejects)."""
